@@ -459,7 +459,7 @@ _CARD_BODIES = [('PX', ['1.5']), ('c/z', ['1', '-2.5', '1e-3']), ('GQ', ['1', '2
 from MIP.geom import surfaces as _MIPSURF
 
 
-@contract(_MIPSURF.get_surfaces, props=['C02'], name='surfaces.get_surfaces', status='B')
+@contract(_MIPSURF.get_surfaces, props=['C02', 'C16'], name='surfaces.get_surfaces', status='B')
 class _GetSurfaces:
     """Surface cards (any layout MCNP accepts: leading blanks, continuation by `&` or by five leading blanks, `$`
     comments, comment lines, upper / lower case) are read as: number, boundary flag, transformation number,
